@@ -113,7 +113,7 @@ class Result:
         self.after_matched_cancel = False   # a request was cancelled (and its handle released) after it had been matched: only a later
         self.after_cancelled_wait_timeout = False   # crash is attributed; same for a wait_for() timeout followed by cancel()
         self.toggled = False
-        self.after_blocking_failure = False   # a one-simcall blocking Comm (put_init()->wait(), Comm::send/recv) ended with an exception
+        self.after_blocking_failure = False   # a blocking put/get/wait/wait_any ended with an exception (peer cancelled the comm)
 
     def count(self, k, n=1):
         self.counters[k] = self.counters.get(k, 0) + n
@@ -181,7 +181,7 @@ def replay(out, prop, ended=True, tainted=False):
             got = pm if pm not in (None, "-") else "?"
         exp = hs[g.peer] if g.peer is not None else None
         P = pfx(b)
-        if g.cancel_hit and got in ("NULL", "SCRIBBLE", "?"):
+        if g.cancel_hit and (got in ("NULL", "SCRIBBLE", "?") or kv.get("pmid") == "NULL"):
             res.count("deliveries_void_after_cancel")
             return True
         if got in ("NULL", "BADPTR", "SCRIBBLE") or (got not in issued and got != "?"):
@@ -251,6 +251,10 @@ def replay(out, prop, ended=True, tainted=False):
 
     def failed(hd, kv, ln):
         hd.waiting = False
+        if "Timeout" not in kv.get("st", ""):
+            # a blocking simcall ended with an exception (open known finding: simcall_.observer_ is left dangling unless the caller
+            # went through Comm::wait_for, which resets it): a later crash of the process is attributed to it
+            res.after_blocking_failure = True
         if hd.cancel_hit:
             res.count("failures_after_cancel")
             return True
@@ -414,8 +418,6 @@ def replay(out, prop, ended=True, tainted=False):
                     w = withdraw(hx)
                     res.count("mailbox_api_timeouts_of_%s_requests" % w)
             elif st.startswith("fail"):
-                if op in ("putw", "getw", "putf", "getf", "bput", "bget"):
-                    res.after_blocking_failure = True
                 if not failed(hd, kv, ev["ln"]):
                     continue
         elif op in ("wait", "test", "wany", "waitk"):
@@ -446,6 +448,8 @@ def replay(out, prop, ended=True, tainted=False):
             elif st == "0":
                 hd.waiting = False
             elif st.startswith("fail"):
+                if "Timeout" not in st:
+                    res.after_blocking_failure = True
                 if op == "wany":
                     ok = True
                     for x in [y for y in kv.get("failed", "").split(",") if y]:
